@@ -59,7 +59,7 @@ fn result_text(v: &Value) -> Option<String> { v["result"]["content"][0]["text"].
 
 pub fn run(ctx: &mut Ctx) {
     let prop = "C20";
-    ctx.ev.rule = "generated sessions of 4–14 JSON-RPC requests over the five tools and the resource methods (valid ledgers, uncovered ledgers, garbage text, wrong argument types, missing fields, unknown tools, bad currencies/months, unknown resource URIs), each run pipelined (all lines written at once, handled concurrently) and one at a time, against the real `cgt-tool mcp` process: every request id gets exactly one response (result or JSON-RPC error), no other ids appear, the server exits 0 when its input closes; the same request gives the same answer at any position, in either mode; calculate_report's JSON equals `cgt-tool report --format json` for the same text (tax years and holdings); every disposal it lists is explained by explain_matching (the first session always carries a ledger with disposals on 5 and 6 April of leap and ordinary years, 29 February and the calendar-year ends). Known-finding classes mcpUndecodable (D15) and overflowMagnitude (D9) are probed once per run and not mixed into the sessions. Non-trivial = sessions with ≥ 1 failing request followed by a succeeding one; distinct by request list.".into();
+    ctx.ev.rule = "generated sessions of 4–14 JSON-RPC requests over the five tools and the resource methods (valid ledgers, uncovered ledgers, garbage text, wrong argument types, missing fields, unknown tools, bad currencies/months, unknown resource URIs), each run pipelined (all lines written at once, handled concurrently) and one at a time, against the real `cgt-tool mcp` process: every request id gets exactly one response (result or JSON-RPC error), no other ids appear, the server exits 0 when its input closes; the same request gives the same answer at any position, in either mode; calculate_report's JSON equals `cgt-tool report --format json` for the same text (tax years and holdings); every disposal it lists is explained by explain_matching with the legs the CLI reports (rule, exact quantity, acquisition date, cost and gain to the penny; the first session always carries a ledger whose 30-day matches cross 5 April and 31 December, and a ledger with disposals on 5 and 6 April of leap and ordinary years, 29 February and the calendar-year ends). Known-finding classes mcpUndecodable (D15) and overflowMagnitude (D9) are probed once per run and not mixed into the sessions. Non-trivial = sessions with ≥ 1 failing request followed by a succeeding one; distinct by request list.".into();
     if !cli::available() { ctx.ev.notes.push("cgt-tool binary not found: nothing checked".into()); ctx.ev.violation("correspondence", "cgt-tool binary missing".into(), "# property C20\n".into()); return; }
     let mut r = Rng::new(ctx.seed ^ 0xC20);
     let mut cfg = GenCfg::standard();
@@ -95,6 +95,11 @@ pub fn run(ctx: &mut Ctx) {
             let id = 100 + nreq;
             expect_cli.push((id, text.clone()));
             reqs.push(call(id, "calculate_report", json!({"transactions": text})));
+            // a disposal in the last days of a tax year (and of a calendar year) re-acquired within 30 days in
+            // the next one, and a same-day match: the explanation must be the CLI's, whichever years are involved
+            let text2 = "2023-01-10 BUY ACME 100 @ 10\n2024-04-02 SELL ACME 40 @ 15\n2024-04-10 BUY ACME 30 @ 12\n2024-04-10 SELL ACME 5 @ 13\n2024-12-20 SELL ACME 20 @ 11\n2025-01-15 BUY ACME 50 @ 9.5\n".to_string();
+            expect_cli.push((id + 50, text2.clone()));
+            reqs.push(call(id + 50, "calculate_report", json!({"transactions": text2})));
             // non-empty ledgers without any trade (dividends only; an accumulation and a split only):
             // the CLI reports them, so must the server
             for (k, t) in ["2024-05-01 DIVIDEND AAA TOTAL 100 TAX 10\n2024-06-01 DIVIDEND BBB TOTAL 5 TAX 0\n", "2023-04-06 DIVIDEND AAA TOTAL 1.5 TAX 0\n", "2024-05-01 SPLIT AAA RATIO 2\n2024-05-02 DIVIDEND AAA TOTAL 7 TAX 1\n"].iter().enumerate() {
@@ -153,6 +158,34 @@ pub fn run(ctx: &mut Ctx) {
                             ctx.ev.count_n("explain-calls", ex_reqs.len() as u64);
                             for v in &s2.responses { if v.get("error").is_some() { ctx.ev.violation("oracle", format!("explain_matching cannot explain a disposal that calculate_report lists: {}", v["error"]["message"].as_str().unwrap_or("").lines().next().unwrap_or("")), format!("# property C20\n{text}")); } }
                             if s2.responses.len() != ex_reqs.len() { ctx.ev.violation("oracle", "an explain_matching request was not answered".into(), format!("# property C20\n{text}")); }
+                            // … and the explanation is the disposal the CLI reports: same legs in the same order (rule,
+                            // exact quantity, acquisition date), each cost and gain rounding to the CLI's pence figure
+                            let cli_disposals: Vec<Value> = a["tax_years"].as_array().map(|ys| ys.iter().flat_map(|y| y["disposals"].as_array().cloned().unwrap_or_default()).collect()).unwrap_or_default();
+                            for v in &s2.responses {
+                                let Some(i) = v["id"].as_u64().and_then(|x| x.checked_sub(900)).map(|x| x as usize) else { continue };
+                                let (Some(d), Some(et)) = (cli_disposals.get(i), result_text(v)) else { continue };
+                                let e: Value = serde_json::from_str(&et).unwrap_or_default();
+                                ctx.ev.count("explanations-compared-with-cli");
+                                let dec = |x: &Value| x.as_str().and_then(|s| s.parse::<Decimal>().ok());
+                                let rule = |s: &str| s.replace(' ', "").replace('&', "And");
+                                let (em, dm) = (e["matches"].as_array().cloned().unwrap_or_default(), d["matches"].as_array().cloned().unwrap_or_default());
+                                let mut bad: Option<String> = None;
+                                if em.len() != dm.len() { bad = Some(format!("{} legs explained, {} reported", em.len(), dm.len())); }
+                                for (x, y) in em.iter().zip(&dm) {
+                                    if rule(x["rule"].as_str().unwrap_or("")) != y["rule"].as_str().unwrap_or("?") { bad = Some(format!("rule {} vs {}", x["rule"], y["rule"])); }
+                                    if dec(&x["quantity"]) != dec(&y["quantity"]) { bad = Some(format!("quantity {} vs {}", x["quantity"], y["quantity"])); }
+                                    if x.get("acquisition_date").and_then(|s| s.as_str()) != y.get("acquisition_date").and_then(|s| s.as_str()) { bad = Some(format!("acquisition date {} vs {}", x["acquisition_date"], y["acquisition_date"])); }
+                                    for f in ["allowable_cost", "gain_or_loss"] {
+                                        match (dec(&x[f]), dec(&y[f])) {
+                                            (Some(p), Some(q)) if (p - q).abs() <= Decimal::new(5, 3) => {}
+                                            _ => bad = Some(format!("{f} {} vs {}", x[f], y[f])),
+                                        }
+                                    }
+                                }
+                                if let Some(what) = bad {
+                                    ctx.ev.violation("oracle", format!("explain_matching's answer for {} {} differs from what the CLI computes for the same ledger: {what}", d["date"].as_str().unwrap_or("?"), d["ticker"].as_str().unwrap_or("?")), format!("# property C20\n# explain_matching vs `cgt-tool report --format json`: {what}\n{text}"));
+                                }
+                            }
                         }
                     }
                     (false, false) => {}
